@@ -65,6 +65,14 @@ def handle (op : String) (a : List String) : Option String :=
     match Curve.byName cn, pos.toInt? with
     | some c, some pos => some (entropyModel c pos)
     | _, _ => none
+  -- scalar arithmetic of the internal package (through the verif hooks): the specification is arithmetic modulo L
+  | "c14.screduce", [w] => (parseV w).map fun w => "ok " ++ hxv (Ed25519.leBytes 32 (Ed25519.leNat w % Ed25519.L))
+  | "c14.scmuladd", [a, b, c] =>
+    match parseV a, parseV b, parseV c with
+    | some a, some b, some c =>
+      some ("ok " ++ hxv (Ed25519.leBytes 32 ((Ed25519.leNat a * Ed25519.leNat b + Ed25519.leNat c) % Ed25519.L)))
+    | _, _, _ => none
+  | "c14.sccanon", [x] => (parseV x).map fun x => if x.length = 32 ∧ Ed25519.leNat x < Ed25519.L then "1" else "0"
   | "c14.key", [seed] => (parseV seed).map fun seed => "ok " ++ hxv (Ed25519.newKeyFromSeed sha512 seed)
   | "c14.sign", [seed, msg] =>
     match parseV seed, parseV msg with
